@@ -45,7 +45,7 @@ pub fn meta(rep: &mut Report) {
     rep.rule = "mutation with deviation bound over a corpus of 12 small valid btor2 files that together use every line kind: delete / duplicate / swap lines; every token (id, tag, sort id, operand, parameter, symbol) deleted or replaced by every element of a hostile menu (every other id of the file and its negation, 0, -0, 1, 2^31, 2^32-1, 2^32, 2^63, 2^64, -, x, e-acute, 1✖2, every tag name incl. the unsupported ones); width 0; slice bounds reversed / out of range; array sorts over array sorts; grammar-generated ill-sorted lines (operator x every operand-kind combination x every declared sort). quick: all single mutations + the reduced ill-sorted grammar; thorough: additionally all pairs of mutations on the 6 smallest files (reduced menu) and the full ill-sorted grammar. Each text runs in a worker subprocess (address-space cap, deadline). Outcome must be None, Some(sys) with sys passing the acceptance oracle, or a panic carrying one of the reader's documented not-yet-supported markers. distinct_nontrivial = distinct texts for which the reader returned a system.".into();
     rep.assumptions = vec![
         "allowed panics: parse.rs todo!(\"support fairness constraints\"), todo!(\"Add support for bit rotates.\"), todo!(\"Add support for overflow operators\"), \"TODO: implement support for <op> operation\", \"unexpected unary op: inc|dec\" — only when raised in btor2/parse.rs".into(),
-        "worker limits: address-space cap 1 GiB and 10 s per text (normal run time is tens of microseconds); texts declaring a sort of >= 2^24 bits (`heavy`) get 8 GiB / 120 s in the thorough tier and run 4 at a time; the quick tier drops heavy texts that also contain a constant line (a 2^32-1-bit literal legitimately needs > 1 GiB and 10-70 s) and counts them; a deadline is reported only after the text timed out twice".into(),
+        "worker limits: address-space cap 1 GiB and 10 s per text (normal run time is tens of microseconds); texts declaring a sort of >= 2^24 bits (`heavy`) get 8 GiB / 120 s in the thorough tier and run last, 4 at a time; the quick tier produces heavy texts only from the three smallest corpus files (materialising a 2^32-1-bit literal legitimately needs > 1 GiB and 10-70 s) and counts what it dropped; a deadline is reported only after the text timed out twice".into(),
         "acceptance oracle: deep reference type check of every init/next/output/bad/constraint, init/next type = state type, inputs and state symbols are symbols, every symbol used is a declared input or state, bad/constraint are 1 bit wide, and when the text is well-formed for the reference reader the sorts of inputs/states/outputs equal the declared ones".into(),
     ];
 }
@@ -263,6 +263,9 @@ pub fn worker_main(args: &[String]) -> ! {
 }
 
 static BATCH_NO: AtomicU64 = AtomicU64::new(0);
+/// texts the reference calls ill-sorted, accepted by the reader with a system that passes the
+/// acceptance oracle (C08's business; listed in the evidence for information)
+static ACCEPTED_ILLSORTED: std::sync::Mutex<Vec<String>> = std::sync::Mutex::new(vec![]);
 
 /// Run a batch of texts in worker subprocesses; a worker that dies or exceeds the deadline is
 /// replaced and the text it was working on is recorded as Abort / Deadline.
@@ -298,6 +301,7 @@ pub fn run_batch(texts: &[String]) -> Vec<WRes> {
                 }
             }
         });
+        let mut in_flight: Option<usize> = None;
         loop {
             if out.len() == texts.len() {
                 break;
@@ -305,6 +309,10 @@ pub fn run_batch(texts: &[String]) -> Vec<WRes> {
             match rx.recv_timeout(std::time::Duration::from_secs(deadline_s())) {
                 Ok(l) => {
                     let v: Value = serde_json::from_str(&l).unwrap_or(Value::Null);
+                    if let Some(p) = v["p"].as_u64() {
+                        in_flight = Some(p as usize - 1);
+                        continue;
+                    }
                     if v["i"].as_u64() != Some(out.len() as u64) {
                         machinery_failure(&format!("C18 worker protocol error: got `{l}` while waiting for text {}", out.len()));
                     }
@@ -322,10 +330,11 @@ pub fn run_batch(texts: &[String]) -> Vec<WRes> {
                         check,
                         refclass: v["rc"].as_str().unwrap_or("").to_string(),
                     });
+                    in_flight = None;
                 }
                 Err(std::sync::mpsc::RecvTimeoutError::Timeout) => {
                     let _ = child.kill();
-                    out.push(WRes { kind: Kind::Deadline, msg: format!("no result within {} s", deadline_s()), loc: String::new(), fail_line: None, check: None, refclass: String::new() });
+                    out.push(WRes { kind: Kind::Deadline, msg: format!("no result within {} s", deadline_s()), loc: String::new(), fail_line: in_flight, check: None, refclass: String::new() });
                     break;
                 }
                 Err(std::sync::mpsc::RecvTimeoutError::Disconnected) => {
@@ -340,7 +349,7 @@ pub fn run_batch(texts: &[String]) -> Vec<WRes> {
                         },
                         None => "worker died".to_string(),
                     };
-                    out.push(WRes { kind: Kind::Abort, msg: how, loc: String::new(), fail_line: None, check: None, refclass: String::new() });
+                    out.push(WRes { kind: Kind::Abort, msg: how, loc: String::new(), fail_line: in_flight, check: None, refclass: String::new() });
                     break;
                 }
             }
@@ -809,7 +818,31 @@ fn final_sig(text: &str, r: &WRes) -> Option<(String, String)> {
     match r.kind {
         Kind::Panic => {
             let idx = r.fail_line.unwrap_or(text.split('\n').count().saturating_sub(1));
-            let (tag, kinds) = line_shape(text, idx);
+            let (mut tag, kinds) = line_shape(text, idx);
+            // does the panic depend on the operator at all? (e.g. a negated array operand fails
+            // before the operator is looked at): try other operators of the same arity
+            if btorref::is_operator(&tag) && !text.split(|c: char| !c.is_ascii_digit()).any(|t| t.len() >= 10) {
+                let alts: &[&str] = match btorref::arity(&tag) {
+                    1 => &["not", "neg", "redor"],
+                    2 => &["and", "add", "eq", "concat"],
+                    _ => &["ite", "write"],
+                };
+                let lines: Vec<&str> = text.split('\n').collect();
+                let independent = !matches!(tag.as_str(), "slice" | "uext" | "sext")
+                    && alts.iter().filter(|a| **a != tag).all(|a| {
+                        let mut ls: Vec<String> = lines.iter().map(|l| l.to_string()).collect();
+                        let mut toks = split_line(&ls[idx]);
+                        if toks.len() > 1 {
+                            toks[1] = a.to_string();
+                        }
+                        ls[idx] = toks.join(" ");
+                        let r2 = run_one_inproc(&ls.join("\n"));
+                        r2.kind == Kind::Panic && r2.loc == r.loc
+                    });
+                if independent {
+                    tag = format!("any-op{}", btorref::arity(&tag));
+                }
+            }
             let sig = format!("C18|{class}|{tag}|{kinds}|{}", norm_msg(&r.msg));
             let what = format!("the reader panics instead of reporting an error on `{one_line}`: {} ({})", r.msg, r.loc);
             Some((sig, what))
@@ -870,13 +903,20 @@ fn shrink_case(text: &str, r: &WRes) -> (String, WRes) {
 
 // ------------------------------------------------------------------ driver
 
-fn process(texts: &[(&'static str, String)], base_order: u64, rep: &Report, budget: &Budget, pending: &mut BTreeMap<String, (u64, String, WRes)>) -> bool {
+fn process(texts: &[(&'static str, String)], base_order: u64, rep: &Report, budget: &Budget, pending: &mut BTreeMap<String, (u64, String, WRes)>, heavy_later: &mut Option<Vec<(u64, &'static str, String)>>) -> bool {
     const CHUNK: usize = 400;
     // heavy texts run one per worker (thorough: 4 at a time), the others in chunks
     let mut normal: Vec<(usize, &(&'static str, String))> = vec![];
     let mut heavy: Vec<(usize, &(&'static str, String))> = vec![];
     for (i, t) in texts.iter().enumerate() {
-        if is_heavy(&t.1) { heavy.push((i, t)) } else { normal.push((i, t)) }
+        if is_heavy(&t.1) {
+            match heavy_later {
+                Some(sink) => sink.push((base_order + i as u64, t.0, t.1.clone())),
+                None => heavy.push((i, t)),
+            }
+        } else {
+            normal.push((i, t))
+        }
     }
     let mut capped = false;
     let mut groups: Vec<Vec<Vec<(usize, &(&'static str, String))>>> = vec![];
@@ -906,7 +946,7 @@ fn process(texts: &[(&'static str, String)], base_order: u64, rep: &Report, budg
                             r.msg = format!("[deadline not confirmed] {}", r.msg);
                         }
                     }
-                    if matches!(r.kind, Kind::Abort | Kind::Deadline) {
+                    if matches!(r.kind, Kind::Abort | Kind::Deadline) && r.fail_line.is_none() {
                         r.fail_line = Some(bisect_fail_line(t, &r.kind));
                     }
                 }
@@ -934,6 +974,10 @@ fn process(texts: &[(&'static str, String)], base_order: u64, rep: &Report, budg
                         }
                         if r.refclass == "illsorted" && r.check.is_none() {
                             *counts.entry("accepted-illsorted-and-passing-the-oracle".into()).or_insert(0) += 1;
+                            let mut g = ACCEPTED_ILLSORTED.lock().unwrap();
+                            if g.len() < 12 {
+                                g.push(text.clone());
+                            }
                         }
                     }
                     Kind::Panic => {
@@ -1013,16 +1057,30 @@ pub fn run(opts: &Opts, rep: &Report) {
     }
 
     let mut pending: BTreeMap<String, (u64, String, WRes)> = BTreeMap::new();
+    // thorough: heavy texts are collected and run last, one per worker, 4 at a time
+    let mut heavy_later: Option<Vec<(u64, &'static str, String)>> = if thorough { Some(vec![]) } else { None };
     let mut order = 0u64;
     // stage 0: the corpus itself must be accepted by the reference (checked above); run it too
     let base: Vec<Mutant> = corpus.iter().map(|t| ("corpus", t.clone())).collect();
-    process(&base, order, rep, &budget, &mut pending);
+    process(&base, order, rep, &budget, &mut pending, &mut heavy_later);
     order += base.len() as u64;
     // stage 1: all single mutations
     let mut singles: Vec<Mutant> = vec![];
+    let mut by_size: Vec<&String> = corpus.iter().collect();
+    by_size.sort_by_key(|t| (t.lines().count(), t.len()));
+    let smallest3: Vec<&String> = by_size.iter().take(3).copied().collect();
+    let mut dropped_heavy = 0u64;
     for f in corpus.iter() {
-        singles.extend(single_mutations(f, false, thorough));
+        let mut ms = single_mutations(f, false, thorough);
+        if !thorough && !smallest3.contains(&f) {
+            // quick tier: huge declared widths only on the three smallest corpus files
+            let before = ms.len();
+            ms.retain(|m| !is_heavy(&m.1));
+            dropped_heavy += (before - ms.len()) as u64;
+        }
+        singles.extend(ms);
     }
+    rep.add("quick-tier-dropped-heavy-texts", dropped_heavy);
     {
         let classes: BTreeSet<&str> = singles.iter().map(|m| m.0).collect();
         for c in ["delete-line", "duplicate-line", "swap-lines", "delete-token", "replace-token", "slice-bounds", "ext-amount", "width", "array-of-array"] {
@@ -1035,15 +1093,10 @@ pub fn run(opts: &Opts, rep: &Report) {
             machinery_failure("C18 mutants: the reference reader sees only one verdict");
         }
     }
-    if !thorough {
-        let before = singles.len();
-        singles.retain(|m| !(is_heavy(&m.1) && has_literal_line(&m.1)));
-        rep.add("quick-tier-dropped-heavy-texts-with-constant-lines", (before - singles.len()) as u64);
-    }
     rep.add("heavy-texts", singles.iter().filter(|m| is_heavy(&m.1)).count() as u64);
     rep.sample(json!({"mutation": singles[singles.len() / 2].0, "text": singles[singles.len() / 2].1}));
     let n_single = singles.len();
-    if !process(&singles, order, rep, &budget, &mut pending) {
+    if !process(&singles, order, rep, &budget, &mut pending, &mut heavy_later) {
         rep.cap_hit("budget reached during single mutations");
     }
     order += n_single as u64;
@@ -1051,14 +1104,12 @@ pub fn run(opts: &Opts, rep: &Report) {
     let grammar = grammar_files(thorough);
     rep.sample(json!({"mutation": "grammar", "text": grammar[grammar.len() / 2].1}));
     let n_grammar = grammar.len();
-    if !process(&grammar, order, rep, &budget, &mut pending) {
+    if !process(&grammar, order, rep, &budget, &mut pending, &mut heavy_later) {
         rep.cap_hit("budget reached during the ill-sorted grammar");
     }
     order += n_grammar as u64;
     let mut n_pairs = 0usize;
     if thorough {
-        let mut by_size: Vec<&String> = corpus.iter().collect();
-        by_size.sort_by_key(|t| (t.lines().count(), t.len()));
         for f in by_size.iter().take(6) {
             if budget.exceeded() {
                 rep.cap_hit("budget reached before all pair mutations were generated");
@@ -1066,13 +1117,35 @@ pub fn run(opts: &Opts, rep: &Report) {
             }
             let pairs = pair_mutations(f);
             n_pairs += pairs.len();
-            if !process(&pairs, order, rep, &budget, &mut pending) {
+            if !process(&pairs, order, rep, &budget, &mut pending, &mut heavy_later) {
                 rep.cap_hit("budget reached during pair mutations");
             }
             order += pairs.len() as u64;
         }
     }
-    rep.note("stages", json!({"corpus": corpus.len(), "single": n_single, "grammar": n_grammar, "pairs": n_pairs}));
+    let mut n_heavy = 0usize;
+    if let Some(hv) = heavy_later.take() {
+        // de-duplicate (pairs repeat many heavy texts), keep the smallest order
+        let mut seen: BTreeSet<u64> = BTreeSet::new();
+        let hv: Vec<(u64, &'static str, String)> = hv.into_iter().filter(|h| seen.insert(hash64(&h.2))).collect();
+        n_heavy = hv.len();
+        let mut none: Option<Vec<(u64, &'static str, String)>> = None;
+        for h in hv.chunks(4) {
+            if budget.exceeded() {
+                rep.cap_hit("budget reached during the heavy-width texts");
+                break;
+            }
+            for x in h.iter() {
+                // one group of 4 at a time; orders are kept
+                let _ = x;
+            }
+            let ms: Vec<Mutant> = h.iter().map(|x| (x.1, x.2.clone())).collect();
+            // orders inside a group of 4: use the first one's order as base (ties are harmless)
+            process(&ms, h[0].0, rep, &budget, &mut pending, &mut none);
+        }
+    }
+    rep.note("stages", json!({"corpus": corpus.len(), "single": n_single, "grammar": n_grammar, "pairs": n_pairs, "heavy": n_heavy}));
+    rep.note("accepted_illsorted_examples", json!(ACCEPTED_ILLSORTED.lock().unwrap().clone()));
     let t_enum = rep.elapsed();
     flush(pending, rep);
     rep.note("wall_split_s", json!({"enumeration": t_enum, "shrinking": rep.elapsed() - t_enum}));
